@@ -298,6 +298,11 @@ def p_rules(p: Project, rep: Report):
     starts_ = mcfg.nodes_calling(lambda c: text(c.func) == "self._start")
     ok = bool(ends) and bool(starts_)
     why = "end tags are not routed to end() / start tags to _start()"
+    if ok and is_end not in set(PT.atoms_of(mpaths)):
+        # the end-tag test is spelled in a form that does not reduce to `tag.startswith('/')` (partition, regex ...):
+        # nothing can be concluded from the paths
+        rep.note("P-R4 undecided: how _feedmatch tells an end tag from a start tag is not recognised")
+        ok = None
     if ok:
         for en_ in ends:
             mx = Expander(fmf)
@@ -317,7 +322,8 @@ def p_rules(p: Project, rep: Report):
                 cb = pth.conds_before(sn.id)
                 if cb is not None and PT.implies(cb, PT.atom(is_end, False)) is False:
                     ok, why = False, "_start() is reached for an end tag"
-    rep.check("P-R4", "_feedmatch:end-tag-with-text-raises", ok, why if not ok else "", ploc(p, fm))
+    if ok is not None:
+        rep.check("P-R4", "_feedmatch:end-tag-with-text-raises", ok, why if not ok else "", ploc(p, fm))
 
 
 # --------------------------------------------------------------------------
@@ -802,6 +808,10 @@ def p_r10_no_invented_end(p: Project, rep: Report):
     cfg = pths.cfg
     enders = {nd.id for nd in cfg.nodes if nd.stmt is not None and nd.kind not in ("join", "handlers") and any(text(c.func) == "self.end" for c in nd.calls())}
     bad = bad2 = None
+    all_atoms = set(PT.atoms_of(pths))
+    if not any("'/'" in a or '"/"' in a for a in all_atoms):
+        rep.note("P-R10 undecided: how _feedmatch tells an end tag from a start tag is not recognised")
+        return
     for q in pths:
         if q.outcome not in ("return", "fall"):
             continue
